@@ -353,7 +353,16 @@ fn main() {
     let mut seen_ops: std::collections::HashSet<String> = Default::default();
     for (key, c) in &cases {
         let Some(n) = nassign.get(key) else { continue };
-        if !tier.is_thorough() && !seen_ops.insert(format!("{:?}", c.op)) {
+        // quick: per operation the first satisfiable tuple and the first one with pairwise
+        // distinct non-zero operands get the full index sweep
+        let distinct = {
+            let vals: Vec<String> = c.ins.iter().map(|v| v.show()).collect();
+            let mut d = vals.clone();
+            d.sort();
+            d.dedup();
+            d.len() == vals.len() && !vals.iter().any(|v| v == "0x0" || v == "0")
+        };
+        if !tier.is_thorough() && !seen_ops.insert(format!("{:?}|{distinct}", c.op)) {
             continue;
         }
         let idxs: Vec<u64> = (0..*n).collect();
@@ -376,12 +385,22 @@ fn main() {
         if *n > max_n || *n < 2 {
             continue;
         }
-        // quick: one input tuple per operation; thorough: two
-        let cnt = seen_ops.iter().filter(|s| s.starts_with(&format!("{:?}|", c.op))).count();
+        // per operation: the first satisfiable input tuple AND the first one whose operands are
+        // pairwise distinct and non-zero (a forged "equal"/"zero" verdict needs unequal operands);
+        // thorough: one more of each kind
+        let distinct = {
+            let vals: Vec<String> = c.ins.iter().map(|v| v.show()).collect();
+            let mut d = vals.clone();
+            d.sort();
+            d.dedup();
+            d.len() == vals.len() && !vals.iter().any(|v| v == "0x0" || v == "0")
+        };
+        let kind = if distinct { "distinct" } else { "any" };
+        let cnt = seen_ops.iter().filter(|s| s.starts_with(&format!("{:?}|{kind}|", c.op))).count();
         if cnt >= tier.pick(1, 2) {
             continue;
         }
-        seen_ops.insert(format!("{:?}|{key}", c.op));
+        seen_ops.insert(format!("{:?}|{kind}|{key}", c.op));
         let mut pairs = vec![];
         for i in 0..*n {
             for j in i + 1..*n {
